@@ -172,6 +172,16 @@ func obsNew(ch boson.Chunk, err error) string {
 	return hx.CoqApp("ONOk", coqBig(ch.Address().Bytes()), hx.CoqN(uint64(len(ch.Data()))), hx.CoqN(uint64(fp(ch.Data()))))
 }
 
+// cac.Valid with a panic turned into an observable
+func safeValid(ch boson.Chunk, jc jcase, cl string) bool {
+	var v bool
+	if pan, msg := hx.Guard(func() { v = cac.Valid(ch) }); pan {
+		run.Violate(hx.Violation{Sig: "valid:panic:" + cl, Detail: "cac.Valid panicked: " + msg, Case: jc})
+		return true // reported once as a panic, not again as a wrong answer
+	}
+	return v
+}
+
 func doNew(jc jcase) {
 	data := jc.P.bytes()
 	var ch boson.Chunk
@@ -199,7 +209,7 @@ func doNew(jc jcase) {
 		if !bytes.Equal(ch.Address().Bytes(), want) {
 			run.Violate(hx.Violation{Sig: "new:address!=bmt:" + cl, Detail: fmt.Sprintf("got %x want %x", ch.Address().Bytes(), want), Case: jc, Impl: hx.Hex(ch.Address().Bytes()), Want: hx.Hex(want)})
 		}
-		if !cac.Valid(ch) {
+		if !safeValid(ch, jc, cl) {
 			run.Violate(hx.Violation{Sig: "new:result-not-valid:" + cl, Detail: "Valid(New(data)) = false", Case: jc})
 		}
 	}
@@ -241,7 +251,7 @@ func doNewDS(jc jcase) {
 		if !bytes.Equal(ch.Address().Bytes(), want) {
 			run.Violate(hx.Violation{Sig: "newds:address!=bmt:" + cl, Detail: fmt.Sprintf("got %x want %x", ch.Address().Bytes(), want), Case: jc})
 		}
-		if !cac.Valid(ch) {
+		if !safeValid(ch, jc, cl) {
 			run.Violate(hx.Violation{Sig: "newds:result-not-valid:" + cl, Detail: "Valid(NewWithDataSpan(d)) = false", Case: jc})
 		}
 	}
